@@ -1561,6 +1561,86 @@ fn script_churn(rng: &mut Rng, tier: Tier, ex: &mut dyn FnMut(&str) -> String) {
     d.settle();
 }
 
+/// profile 4: two devices of ONE client id (two sockets, two tokens) race while a third client P occupies the first
+/// table slot; the relay holds back the loser's response until P has left (a hole in front of the winner); the loser
+/// gets nothing, both layers keep exactly one session for the id
+fn script_dupid(rng: &mut Rng, _tier: Tier, ex: &mut dyn FnMut(&str) -> String) {
+    let mut x = |op: &str| -> String { ex(op) };
+    let dt = rng.pick(&[50_000u64, 100_000, 250_000]);
+    let maxc = rng.pick(&[3usize, 3, 4, 2]);
+    x(&format!("t-new 1 {} 5 60 3", maxc));
+    x("note lossless");
+    x("note churn");
+    x("t-cnew 1 7");
+    x("t-cnew 2 7");
+    let observe = |x: &mut dyn FnMut(&str) -> String| {
+        for _ in 0..8 {
+            if x("t-ev") == "none" {
+                break;
+            }
+        }
+        x("t-state");
+        x("t-acc");
+    };
+    // requests and challenges for all three
+    for k in 0..3 {
+        x(&format!("t-cupd {} {}", k, dt));
+    }
+    x("t-fwdall up");
+    x(&format!("t-supd {}", dt));
+    observe(&mut x);
+    x("t-fwdall down");
+    // responses: P's first, then the winner's; the loser's stay in the relay
+    for k in 0..3 {
+        x(&format!("t-cupd {} {}", k, dt));
+    }
+    let (w, l) = if rng.chance(1, 2) { (1usize, 2usize) } else { (2, 1) };
+    for k in [0usize, w] {
+        x(&format!("t-fwdn up {}", k));
+        x(&format!("t-supd {}", dt));
+        observe(&mut x);
+        x(&format!("t-fwdn down {}", k));
+        x(&format!("t-cupd {} {}", k, dt));
+    }
+    // (no application messages in this profile: the message oracles identify a session by its client id)
+    // P leaves
+    match rng.below(3) {
+        0 => {
+            x("t-cdisc 0");
+            x(&format!("t-cupd 0 {}", dt));
+            x("t-fwdn up 0");
+        }
+        1 => {
+            x("t-ctdisc 0");
+            x("t-fwdn up 0");
+        }
+        _ => {
+            x("t-sdisc 100");
+        }
+    }
+    x(&format!("t-supd {}", dt));
+    observe(&mut x);
+    x("t-fwdn down 0");
+    // only now the loser's response(s) get through
+    x(&format!("t-cupd {} {}", l, dt));
+    x(&format!("t-fwdn up {}", l));
+    x(&format!("t-supd {}", dt));
+    observe(&mut x);
+    x("t-ssend");
+    x("t-fwdall down");
+    for _ in 0..3 {
+        for k in [w, l] {
+            x(&format!("t-cupd {} {}", k, dt));
+            x(&format!("t-csend {}", k));
+        }
+        x("t-fwdall up");
+        x(&format!("t-supd {}", dt));
+        observe(&mut x);
+        x("t-ssend");
+        x("t-fwdall down");
+    }
+}
+
 fn nontrivial(t: &Trace) -> bool {
     t.outs.iter().any(|o| o.starts_with("connected ")) && t.outs.iter().any(|o| o.starts_with("msg ") || (o.starts_with("msgs ") && !o.starts_with("msgs 0")))
 }
@@ -1596,6 +1676,16 @@ pub fn profiles() -> Vec<Profile> {
             new_world,
             script: script_faulty,
             nontrivial,
+            keep: keep_cfg,
+            fixed: None,
+        },
+        Profile {
+            name: "tp-dupid",
+            props: &["C20"],
+            cases: |t| tier_cases(t, 12, 60),
+            new_world,
+            script: script_dupid,
+            nontrivial: |t| t.outs.iter().any(|o| o.starts_with("connected 7")),
             keep: keep_cfg,
             fixed: None,
         },
